@@ -75,7 +75,7 @@ func c07Tier(tier string) int {
 	if tier == "thorough" {
 		return 200000
 	}
-	return 2500
+	return 12000
 }
 
 func c07Run(c *core.Ctx, idx int) {
